@@ -112,7 +112,7 @@ class _Lower:
             return [L(ast.AugAssign(target=self.expr(n.lhs, store=True), op=BINOPS[n.operator](), value=self.expr(n.rhs)))]
         if t == "CVarDefNode":
             out = []
-            tname = self.type_name(n.base_type)
+            tname = self.type_name(n.base_type) or "object"
             for d in n.declarators:
                 name = self.decl_name(d)
                 dd = d
@@ -221,6 +221,8 @@ class _Lower:
             return L(ast.IfExp(test=self.expr(getattr(n, 'condition', None) or n.test), body=self.expr(n.true_val), orelse=self.expr(n.false_val)))
         if t == "TypecastNode":
             return self.expr(n.operand)
+        if t in ("SizeofTypeNode", "SizeofVarNode"):
+            return L(ast.Constant(value=0))        # sizeof(T) only ever parameterises an allocation whose element size is not modelled
         if t == "YieldExprNode":
             return L(ast.Yield(value=self.expr(n.arg) if n.arg is not None else None))
         if t == "JoinedStrNode":
@@ -280,7 +282,7 @@ class CySource:
                 fn.col_offset = 0
                 ast.fix_missing_locations(fn)
                 self.functions[prefix + name] = fn
-            except (Unsupported, AttributeError, KeyError) as e:
+            except (Unsupported, AttributeError, KeyError, TypeError) as e:
                 try:
                     nm = node.name if t == "DefNode" else low.decl_name(node.declarator)
                 except Exception:
